@@ -26,7 +26,7 @@ RULE = ('a case = one value round-tripped, or one (message, tail, chunking) fed 
 ASSUMPTIONS = ['streaming machine judged only for the types it implements (, $ # ~); list/dict/bool/float messages are counted as unsupported']
 REQUIRED = ['roundtrip:int', 'roundtrip:float', 'roundtrip:bool', 'roundtrip:none', 'roundtrip:bytes', 'roundtrip:str', 'roundtrip:list', 'roundtrip:dict',
             'roundtrip:depth>=4', 'roundtrip:with-tail', 'machine:runs', 'machine:two-way-splits', 'machine:bytewise', 'machine:tail-untouched',
-            'machine:prefix-yields-nothing', 'machine:back-to-back', 'socket:sessions', 'socket:messages', 'from:two-way-splits', 'from:bytewise', 'from:payload-contains-separator', 'roundtrip:payload-looks-like-framing', 'roundtrip:large']
+            'machine:prefix-yields-nothing', 'machine:back-to-back', 'socket:sessions', 'socket:messages', 'from:two-way-splits', 'from:bytewise', 'from:payload-contains-separator', 'roundtrip:payload-looks-like-framing', 'roundtrip:large', 'roundtrip:shared-container-object']
 TIMEOUT = {'quick': 300, 'thorough': 1800}
 SOFT = {'quick': 30, 'thorough': 420}
 
@@ -94,12 +94,23 @@ def gen_value(rng, d=0, maxd=6):
         return gen_scalar(rng)
     if r < 0.72:
         n = rng.choice([0, 1, 2, 3, 5])
-        return [gen_value(rng, d + 1, maxd) for _ in range(n)]
+        out = [gen_value(rng, d + 1, maxd) for _ in range(n)]
+        shared = [x for x in out if isinstance(x, (list, dict))]
+        if shared and rng.random() < 0.3:
+            # the same container OBJECT a second time (a row repeated, a default record shared): finite and acyclic, equal by value
+            x = rng.choice(shared)
+            out.insert(rng.randrange(len(out) + 1), x)
+            if rng.random() < 0.5:
+                out.append([x])                     # ... and once more at another depth
+        return out
     n = rng.choice([0, 1, 2, 3, 4])
     out = {}
     for _ in range(n):
         k = rng.choice(['', 'a', 'key', 'k%d' % rng.randrange(5), '12:', ':', 'a b', 'x' * 40])
         out[k] = gen_value(rng, d + 1, maxd)
+    shared = [x for x in out.values() if isinstance(x, (list, dict))]
+    if shared and rng.random() < 0.3:
+        out['again'] = rng.choice(shared)
     return out
 
 
@@ -360,6 +371,11 @@ def run(ctx):
         if ctx.want_sample() and i % 97 == 5 and enc is not None and len(enc) < 120:
             ctx.sample({'value': describe(v), 'tnetstring': enc})
     # large containers
+    row = [1, 2, 3]
+    rec = {'a': 1}
+    for shared_v in ([row, row], {'pump': rec, 'valve': rec}, [[0] * 4] * 50, [rec, [rec, [rec]]], [[], []][:1] * 2):
+        mon.roundtrip(shared_v)
+        ctx.count('roundtrip:shared-container-object')
     for big in ([0] * 30000, {('k%d' % i): i for i in range(8000)}, b'x' * 100000, 'é' * 60000, [b':' * 10] * 9000):
         if ctx.shard == 0 or not quick:
             mon.roundtrip(big)
